@@ -135,6 +135,40 @@ CLAIMED['C02'] = {
     'design': '§5 C02',
 }
 
+CLAIMED['C06'] = {
+    'text': 'Static: both remove_vertex layers and the inverse k=1 flip are clean on failure (the C03 rollback dataflow '
+            'restricted to these owners); for an unknown vertex no storage mutation is reachable and the only exits are '
+            'Ok(0); the fan retriangulation reports success only behind the local facet, orientation and incidence checks; '
+            'when the repair policy fires, Ok lies behind the success edge of the verified flip repair. Decides rollback, '
+            'the no-op clause and the gating of removal; not the geometric validity of the fan fill.',
+    'note': 'Trusted: as for C03; star-shapedness of the cavity is geometric and not decided.',
+    'technique': 'rollback dataflow + must-pass-through (dominance) over rustc MIR',
+    'design': '§5 C06',
+}
+CLAIMED['C07'] = {
+    'text': 'Static: in the flip kernel every legality guard (duplicate cell, non-manifold facet, existing simplex, '
+            'degenerate cell, the five arity / disjointness rejections) lies before the first cell insertion on every path '
+            '(per-cell guard loops checked per iteration); flip contexts are constructed only by the six validated '
+            'builders; the 12 Edit-API methods and the kernel layers are clean on failure (C03 engine). Decides "no '
+            'mutation before the guards, no unvalidated context, no trace on failure"; not manifold preservation, counts '
+            'or invertibility.',
+    'note': 'Trusted: as for C03; 6 assumed-infeasible exits in the kernel (open item F2) are shared with C03.',
+    'technique': 'must-pass-through (dominance), construction-site enumeration and rollback dataflow over rustc MIR',
+    'design': '§5 C07',
+}
+CLAIMED['C14'] = {
+    'text': 'Static: over the call graph rooted at the constructors and exported &mut operations: no unseeded random '
+            'source, no thread / process identity, no thread-local other than the recursion-depth counter, no iteration '
+            'over a RandomState-hashed collection; every seed_from_u64 seed has no nondeterministic source in its backward '
+            'slice; every clock value flows only into elapsed-time logging. Decides the absence of nondeterminism sources '
+            '(run-to-run / cross-process / cross-thread), not order-independence of the result.',
+    'note': 'Trusted: rustc MIR callee resolution; hasher identification by type string (FxBuildHasher vs default); '
+            'env-var reads are configuration, not nondeterminism. The cell-UUID tie-break in repair_local_facet_issues is an '
+            'open item recorded in DESIGN.md.',
+    'technique': 'call-graph reachability ban + value slices over rustc MIR',
+    'design': '§5 C14',
+}
+
 NOT_APPLICABLE = {
     'C04': 'verdict is the sign of floating-point in-sphere determinants vs exact arithmetic (numerical); the only structural handle is a delegation shape that a correct re-implementation would break',
     'C10': 'correctness of point location is a sign pattern of orientation determinants along a walk (geometric); loop bound is covered under C19',
